@@ -1,7 +1,9 @@
 pub mod c01;
 pub mod c02;
 pub mod c03;
+pub mod c04;
 pub mod c05;
+pub mod c06;
 pub mod c07;
 pub mod c08;
 pub mod c09;
@@ -13,6 +15,7 @@ pub mod c16;
 pub mod c18;
 pub mod c19;
 pub mod c20;
+pub mod subs;
 
 use crate::PropEntry;
 
@@ -21,7 +24,9 @@ pub fn registry() -> Vec<PropEntry> {
 		PropEntry { id: "C01", level: "exploration", check: c01::check, replay: c01::replay },
 		PropEntry { id: "C02", level: "exploration", check: c02::check, replay: c02::replay },
 		PropEntry { id: "C03", level: "exploration", check: c03::check, replay: c03::replay },
+		PropEntry { id: "C04", level: "exploration", check: c04::check, replay: c04::replay },
 		PropEntry { id: "C05", level: "exploration", check: c05::check, replay: c05::replay },
+		PropEntry { id: "C06", level: "fault_enumeration", check: c06::check, replay: c06::replay },
 		PropEntry { id: "C07", level: "exploration", check: c07::check, replay: c07::replay },
 		PropEntry { id: "C08", level: "exploration", check: c08::check, replay: c08::replay },
 		PropEntry { id: "C09", level: "fault_enumeration", check: c09::check, replay: c09::replay },
